@@ -13,4 +13,85 @@ META = {
         "note": "Trusted: __int128 arithmetic of the compiler, the harness' decimal printer, GMP's decimal parser (cross-checked by round trips). "
                 "q_number is only constructed with a positive denominator.",
     },
+    "C07": {
+        "technique": "validity predicate over the WTO (independent reachability + edge/nesting conditions); choice-tape PBT (rapidcheck) and libFuzzer",
+        "text": "Sampled search over digraphs of up to 14 nodes, every entry node and decoded successor orders, built as CFG, reversed CFG and call graph. "
+                "The flattened component tree is checked against the three stated conditions (each reachable node exactly once, every edge forward or "
+                "into an enclosing head, nesting() = strictly enclosing heads outermost first) using the harness' own adjacency lists and BFS.",
+        "note": "Graphs larger than 14 nodes are not explored. Trusted: the CFG/call-graph builders produce the decoded edge relation (cross-checked for the call graph).",
+    },
+    "C19": {
+        "technique": "model-based testing against std::map / std::set over operation histories; choice-tape PBT (rapidcheck) and libFuzzer",
+        "text": "Stateful search: histories of set/forget/join/meet/widening/narrowing/rename/project/copy over four environments are replayed on a "
+                "std::map model with default top; lookups, iteration, size, is_top/is_bottom and the inclusion test between all pairs are compared "
+                "after every step. Sets (patricia_tree_set, discrete_domain, set_domain) are compared with std::set.",
+        "note": "Pointwise results of merges are computed with the value lattice's own operators (the value lattices are C08's subject). At most 12 keys per history.",
+    },
+    "C08": {
+        "technique": "sampled gamma-membership of concrete results + reference corner arithmetic for tightness; choice-tape PBT (rapidcheck) and libFuzzer",
+        "text": "Sampled search over pairs of abstract scalars of every class and every operation: concrete members are drawn from each operand, the concrete "
+                "operation (DESIGN 2.3) is applied and the result must be a member of the abstract result; lattice operations and the inclusion test are "
+                "checked against the sampled members; integer interval + - neg * join meet must equal an independent corner model.",
+        "note": "Members are sampled (at most 8 per operand), so a result that misses only unsampled values is not detected. Unsigned operations are only "
+                "judged on non-negative operands.",
+    },
+    "C01": {
+        "technique": "concrete reference interpreter for CrabIR + gamma-membership oracle (differential); choice-tape PBT (rapidcheck) and libFuzzer",
+        "text": "Sampled search over generated CrabIR programs, fixpoint parameters, initial values and concrete executions: every concrete state "
+                "reached at a block entry, after a statement or at a block exit must be a member of the invariant the forward analyzer reports "
+                "there, observed only through the public query API (at, operator[], exported constraints, entails, point meet, is_bottom). "
+                "Quick tier: six domains (intervals, zones, octagons, intervals+congruences, term equivalences, flat boolean); it refutes, it does not prove.",
+        "note": "Trusted: the harness' interpreter (DESIGN 2.3; undocumented corners truncate the execution instead of judging it). Programs have <= 10 "
+                "blocks and <= 6+2+3 variables; unsoundness visible only on long executions or huge values is out of reach.",
+    },
+    "C02": {
+        "technique": "per-assertion checker verdict vs concrete executions (differential against the reference interpreter); choice-tape PBT and libFuzzer",
+        "text": "Sampled search: a SAFE verdict is refuted by one concrete execution that reaches the assertion with a false condition, an UNREACHABLE "
+                "verdict by one execution that reaches it. Warnings are never inspected. Currently the intra-procedural forward analyzer with the "
+                "assertion checker on six domains.",
+        "note": "Forward+backward and inter-procedural analyzers are not covered yet. Executions are sampled (4-12 per program).",
+    },
+    "C03": {
+        "technique": "stateful model-based testing with witness sets (concrete images of sampled states) + gamma-membership oracle; choice-tape PBT and libFuzzer",
+        "text": "Sampled search over operation histories on several abstract values: each value carries concrete witness states that are members by "
+                "construction; after every abstract operation the images of the witnesses under the corresponding concrete operation must be members "
+                "of the result (interval queries, exported constraints, entailment, point meet, not bottom).",
+        "note": "Witness sets are finite samples (<= 12 states per value): a result that wrongly excludes only unsampled states is not detected.",
+    },
+    "C04": {
+        "technique": "lattice laws checked against witness sets over operation histories; choice-tape PBT and libFuzzer",
+        "text": "Sampled search: reflexivity, bottom/top laws, is_bottom/is_top after set_to_*/make_*, and the soundness of yes-answers of the inclusion "
+                "test, of join and of meet against the witness sets of values reached by arbitrary histories (including values over different "
+                "variable sets).",
+        "note": "A wrong yes-answer of <= is only detected when a sampled witness of the left operand falls outside the right operand.",
+    },
+    "C05": {
+        "technique": "deterministic step-budget watchdog on analyses + widening-chain stationarity bound + membership of widening/narrowing arguments; choice-tape PBT and libFuzzer",
+        "text": "Sampled search: (a) forward analyses run under a deterministic event budget three orders of magnitude above ordinary runs; (b) generated "
+                "ascending chains must become stationary within a generous structural bound on the number of strict increases, every widening result "
+                "must contain the witnesses of both arguments and narrowing of a decreasing pair the witnesses of its second argument.",
+        "note": "Termination can only be refuted, by exceeding the budget/bound; the bound is an over-estimate (observed increases are reported next to it). "
+                "Backward and inter-procedural analyses are not yet under the watchdog.",
+    },
+    "C06": {
+        "technique": "reference least-fixpoint model (bit sets over a finite state space) compared for equality + join-only reference iteration for the delay clause; choice-tape PBT and libFuzzer",
+        "text": "Sampled search with an exact oracle: the fixpoint iterator is driven with a finite-height client value type whose operations are exact, so "
+                "get_pre/get_post must EQUAL the least solution computed by naive iteration, for every start block with empty nesting, assumption map, "
+                "delay and descending count. Second sentence: interval analyses of counted loops around the delay are compared with a join-only iteration.",
+        "note": "State spaces of at most 64 states and CFGs of at most 10 blocks. The delay clause observes widening through the domain's statistics counter.",
+    },
+    "C13": {
+        "technique": "differential vs uint64/__int128 modular reference (exhaustive for widths <= 6, sampled above) + gamma-membership of bit-vector results; choice-tape PBT and libFuzzer",
+        "text": "Sampled (and for small widths exhaustive) search: every wrapint operation must equal arithmetic modulo 2^w, and every wrapped_interval "
+                "operation must contain the bit-vector result of every pair of members of its arguments, including pole-crossing intervals.",
+        "note": "Programs under machine-integer semantics on the wrapped-interval domain (part c of the design) are not built yet.",
+    },
+    "C16": {
+        "technique": "observation snapshots of untouched values over histories (copy isolation), mutual inclusion around queries, wrapper differential (D vs abstract_domain_ref<D>); choice-tape PBT and libFuzzer",
+        "text": "Sampled search over histories with copies, moves, queries, normalize/minimize: values that a step does not operate on must keep the same "
+                "observations and witnesses; queries keep the value <=-equal to a pre-copy; the generic wrapper must observe exactly what the wrapped "
+                "domain observes after every step.",
+        "note": "Sharing bugs that need a memory-level (not API-level) interleaving are only visible as sanitizer reports in the fuzz flavour.",
+    },
 }
+
